@@ -146,23 +146,42 @@ func c17run(c *fw.Ctx, idx int) {
 		hows = append(hows, how+"="+res.Out.String())
 	}
 	src := "{{ isset(" + strings.Join(srcs, ", ") + ") }}"
-	if piped {
+	kind := "call"
+	prefix := ""
+	switch {
+	case piped:
 		src = "{{ " + srcs[0] + " | isset }}"
+		kind = "piped"
+	case r.Intn(4) == 0 && !strings.Contains(hows[0], "=error"):
+		// the first argument is piped in and placed with the '_' slot, anywhere in the list
+		rest := append([]string{}, srcs[1:]...)
+		at := r.Intn(len(rest) + 1)
+		rest = append(rest[:at], append([]string{"_"}, rest[at:]...)...)
+		src = "{{ " + srcs[0] + " | isset(" + strings.Join(rest, ", ") + ") }}"
+		kind = fmt.Sprintf("piped-slot-%d-of-%d", at, len(rest))
+	case r.Intn(4) == 0:
+		// an earlier isset whose argument runs a template that fails half-way (with a context of its own): isset swallows
+		// the failure, and the isset under test still sees the same '.' and variables
+		if r.Intn(2) == 0 {
+			src = `{{ isset(exec("/swf.jet", "other-context").zq) }}|` + src
+			prefix = "false|"
+		} else {
+			src = `{{ isset(includeIfExists("/swf.jet", r.MapSS).zq) }}|` + src
+			prefix = "swfalse|"
+		}
+		kind = "after-swallowed-failure"
 	}
 	c.Begin(idx, map[string]interface{}{"template": src, "arguments": hows})
 	defer c.End()
-	out := jx.Run(map[string]string{"/t.jet": src}, "/t.jet", vars, root, jx.NoEscape)
+	out := jx.Run(map[string]string{"/t.jet": src, "/swf.jet": "sw{{ nosuchvarq.x }}never"}, "/t.jet", vars, root, jx.NoEscape)
 	c.Count("isset_calls", 1)
 	c.Count("isset_arguments", n)
-	kind := "call"
-	if piped {
-		kind = "piped"
-	}
+	c.Count("form_"+strings.SplitN(kind, "-", 2)[0], 1)
 	if out.Panic != nil || out.ParseErr != nil || out.Err != nil {
 		c.Violation("c17:isset-failed:"+kind+":"+strings.Join(hows, ","), "", fmt.Sprintf("%s -> %s", src, out))
 		return
 	}
-	if out.Out != fmt.Sprint(all) {
+	if out.Out != prefix+fmt.Sprint(all) {
 		c.Violation("c17:isset-value:"+kind+":"+strings.Join(hows, ","), "", fmt.Sprintf("%s rendered %q, every argument exists and is non-nil: %v (%v)", src, out.Out, all, hows))
 		return
 	}
@@ -178,7 +197,7 @@ func init() {
 	fw.Register(&fw.Property{
 		ID:        "C17",
 		Technique: "reference-resolver monitor for isset() and the two-value map lookup over the data graphs and access paths of C06",
-		Rule: "each case is isset(p1..pn) with 1-4 generated access paths (identifier, field, chain and index forms; variable or context base), each valid, corrupted at a random depth (missing/unexported field, index out of range, key of the wrong kind, absent key, access on a scalar), leading through or ending in nil pointers, nil maps, nil slices, nil interfaces, or indexing a map with an unhashable key; a sixth of the cases use the piped form, a sixth the two-value lookup v, ok := m[k] " +
+		Rule: "each case is isset(p1..pn) with 1-4 generated access paths (identifier, field, chain and index forms; variable or context base), each valid, corrupted at a random depth (missing/unexported field, index out of range, key of the wrong kind, absent key, access on a scalar), leading through or ending in nil pointers, nil maps, nil slices, nil interfaces, or indexing a map with an unhashable key; a sixth of the cases use the piped form, a quarter of the rest pipe the first argument into a '_' slot at a random position or follow an isset that swallowed a template failing half-way under a context of its own, a sixth the two-value lookup v, ok := m[k] " +
 			"over 30 (map, key) pairs incl. present keys holding zero values, nil pointers and nil interfaces, absent keys, nil maps, named and int key types, in three assignment forms; " +
 			"oracle: Execute never fails; isset renders true exactly when the reference resolver finds every argument existing and non-nil; ok equals key presence; non-trivial = several arguments or a false verdict; distinct by argument outcome tuple",
 		Assumptions: []string{"isset arguments are limited to the expression kinds the documentation names (no calls, no slices)"},
